@@ -150,6 +150,25 @@ def srcOfJson (j : Json) : P Src := do
   let t ← strListOfJson (← j.getObjVal? "target")
   pure (.rooted r t)
 
+def itemOfJson (j : Json) : P Item := do
+  if let some t := optField j "root" then return .root (← treeOfJson t)
+  if let some r := optField j "rooted" then
+    return .rooted (← (← r.getObjVal? "id").getNat?) (← treeOfJson (← r.getObjVal? "root"))
+      (← strListOfJson (← r.getObjVal? "target"))
+  if let some u := optField j "unrooted" then return .unrooted (← infoOfJson u)
+  if let some b := optField j "array" then return .array (← bodyOfJson b)
+  if let some e := optField j "dict" then return .dict (← objOfJson e)
+  return .other
+
+def inputOfJson (j : Json) : P Input := do
+  let kind ← strField j "kind"
+  match kind with
+  | "array" => pure (.array (← bodyOfJson (← j.getObjVal? "body")))
+  | "dict" => pure (.dict (← objOfJson (← j.getObjVal? "entry")))
+  | "metadata" => pure (.metadata (← strField j "name") (← objOfJson (← j.getObjVal? "entry")))
+  | "list" => pure (.list (← (← arrField j "items").mapM itemOfJson))
+  | _ => pure .other
+
 def readOutToJson : ReadOut → Json
   | .node r p => Json.mkObj [("kind", "node"), ("root", treeToJson r), ("path", strListToJson p)]
   | .rootnames ns => Json.mkObj [("kind", "rootnames"), ("names", strListToJson ns)]
@@ -170,12 +189,14 @@ def step (st : St) (j : Json) : P (St × Json) := do
   match what with
   | "save" =>
     let path ← strField j "path"
-    let src ← srcOfJson (← j.getObjVal? "src")
+    let inp ← match optField j "input" with
+      | some i => inputOfJson i
+      | none => do pure (Input.node (← srcOfJson (← j.getObjVal? "src")))
     let mode ← strField j "mode"
     let opt ← treeOptField j
     let ep := (optField j "emdpath").bind (fun v => v.getStr?.toOption)
     let existed := (fsLookup st.fs path).isSome
-    match save st.sess s!"u{st.created}" st.fs path src mode opt ep with
+    match saveInput st.sess s!"u{st.created}" st.fs path inp mode opt ep with
     | .ok fs' =>
       -- a header (and so a UUID) is written exactly when a new file is created
       let createdNow := !existed || (match classifyMode (effectiveMode mode ep) with
